@@ -23,6 +23,20 @@ def first_divergence(d):
     return i, ev, ov
 
 
+def handler_name_assigned_in_nested_statement(p):
+    """A name bound by `except E as name` that is assigned inside a compound statement nested in that handler."""
+    par = mpsig.parents(p)
+    for n, d in enumerate(p['nodes'], 1):
+        for nm in d['tgt'] + ([d['name']] if d['kind'] == 'with' and d['name'] else []):
+            path = mpsig.path(p, n, par)
+            for i, (k, sec, q) in enumerate(path):
+                if k == 'try' and sec == 'handler' and i < len(path) - 1:
+                    hs = [h for h in p['nodes'][q - 1]['handlers'] if h.get('name') == nm]
+                    if hs:
+                        return nm
+    return None
+
+
 def classify(p, d, rec, claims):
     """Semantic signature of a divergence between the prediction and the converted function."""
     bad = mpmon.parse_bad(rec['bad']) if rec.get('bad') else None
@@ -33,8 +47,14 @@ def classify(p, d, rec, claims):
                     'converted function diverges (%s: expected %s, observed %s) on an execution where %s' % (
                         d['why'], d['expected'], d['observed'], what))
     exp, obs = d['expected'], d['observed']
-    xn = rec.get('xnode', 0)
-    if exp == ['exc', 'NameError'] and xn and mpsig.kind(p, xn) == 'del':
+    xn = rec.get('xfirst', 0) or rec.get('xnode', 0)
+    hn = handler_name_assigned_in_nested_statement(p)
+    if hn and obs[0] == 'exc' and obs[1] == 'NameError' and exp != obs:
+        return ('c01:except-as-name-reset-to-undefined',
+                'the variable %s bound by `except ... as %s` is also assigned inside a nested statement of the handler: the '
+                'converter emits `%s = ag__.Undefined(...)` before that statement (the handler binding is not a reaching '
+                'definition), so the bound exception is lost and a later read raises NameError' % (hn, hn, hn))
+    if rec.get('delx'):
         return ('c01:del-of-unbound-variable-does-not-raise',
                 'del of an unbound variable raises NameError in Python; the converted function continues (%s)' % (obs,))
     i, ev, ov = first_divergence(d)
